@@ -673,7 +673,7 @@ class Battery(Component):
         """
         self.E_battery = self.ps_random.uniform(
             low=self.E_min,
-            high=self.E_max,
+            high=self.SOC_max * self.E_max,
         )
         self.update_SOC()
 
